@@ -44,7 +44,15 @@ static inline uint64_t myth_get_rdtsc() {
 #endif
 }
 
+#ifdef MYTH_VERIF
+/* virtual clock: when set, hr_gettime returns what the callback returns */
+extern int (*g_myth_verif_clock)(struct timespec * ts);
+#endif
+
 static inline int hr_gettime(struct timespec * ts) {
+#ifdef MYTH_VERIF
+  if (g_myth_verif_clock) return g_myth_verif_clock(ts);
+#endif
 #if defined(HAVE_LIBRT)
   return clock_gettime(CLOCK_REALTIME, ts);
 #else
